@@ -106,6 +106,7 @@ type lengthOpt struct {
 	tag   string
 	token int // index into the menus: 0 pri, 1 ts, 2 host, 3 app, 4 pid, 5 msgid, 6 sd, 7 msg
 	build func() string
+	big   bool // 256 KiB or more: the quick tier combines it with normal tokens only
 }
 
 func rep(c string, n int) string {
@@ -123,7 +124,8 @@ func rep(c string, n int) string {
 // threshold InputLogMinRecordBytesToPool = 2^10 and every size class of the buffer pool).
 func lengthOpts(lim limits, st *sentinels) []lengthOpt {
 	var o []lengthOpt
-	add := func(tag string, token int, build func() string) { o = append(o, lengthOpt{tag, token, build}) }
+	add := func(tag string, token int, build func() string) { o = append(o, lengthOpt{tag, token, build, false}) }
+	addN := func(tag string, n int, build func() string) { o = append(o, lengthOpt{tag, 7, build, n >= 256*1024}) }
 	for _, w := range []int{15, 16, 31, 32, 255, 256, 65535, 65536, 65537} {
 		w := w
 		add(fmt.Sprintf("host%d", w), 2, func() string { return rep("h", w) })
@@ -142,20 +144,20 @@ func lengthOpts(lim limits, st *sentinels) []lengthOpt {
 	R := L + 256
 	for _, n := range []int{L + 255, L + 256, L + 257, 2 * L, 3 * L, 4 * R} {
 		n := n
-		add(fmt.Sprintf("msg-limit+%d", n-L), 7, func() string { return rep("m", n) })
+		addN(fmt.Sprintf("msg-limit+%d", n-L), n, func() string { return rep("m", n) })
 	}
-	add("msg-rune-across-limit-long-rest", 7, func() string { return rep("m", L-1) + "€" + rep("m", 300) })
-	add("msg-escapes-beyond-limit", 7, func() string { return rep(`\n`, L) })
+	addN("msg-rune-across-limit-long-rest", L, func() string { return rep("m", L-1) + "€" + rep("m", 300) })
+	addN("msg-escapes-beyond-limit", 2*L, func() string { return rep(`\n`, L) })
 	hdr := len(strings.Join(st.tok, " ")) + 1
 	for _, t := range []int{R - 1, R, R + 1} {
 		t := t
-		add(fmt.Sprintf("record-limit%+d", t-R), 7, func() string { return rep("m", t-hdr) })
+		addN(fmt.Sprintf("record-limit%+d", t-R), t, func() string { return rep("m", t-hdr) })
 	}
 	if lim.name == "prod" {
 		for n := 10; n <= 21; n++ {
 			for d := -1; d <= 1; d++ {
 				t := 1<<uint(n) + d
-				add(fmt.Sprintf("record-2^%d%+d", n, d), 7, func() string { return rep("m", t-hdr-8) + ` \n\t€ e` })
+				addN(fmt.Sprintf("record-2^%d%+d", n, d), t, func() string { return rep("m", t-hdr-8) + ` \n\t€ e` })
 			}
 		}
 	}
@@ -187,8 +189,11 @@ func enumLengths(h *harness) {
 					nopt = len(ms[tok].opts)
 				}
 				for oi := 1; oi < nopt; oi++ {
-					if tok >= 0 && cb.st == richL && !ctx.Thorough() {
-						continue // quick: the pooled neighbours see every length on its own only
+					if tok >= 0 && !ctx.Thorough() && (cb.st == richL || lo.big || ms[tok].tags[oi] == "long") {
+						// quick: the pooled neighbours see every length on its own only; lengths of 256 KiB and more go with
+						// normal tokens only, and no length is paired with the 2 x limit token of another field (that token
+						// x every single other option is in A/.../at-most-two-deviations)
+						continue
 					}
 					if !ctx.Mine() {
 						ctx.Skip()
